@@ -186,10 +186,16 @@ def prop_text(case):
 
 # ---------------------------------------------------------------- mutations
 
+PATHO = ["xx:J:" + "[" * 1500 + "]" * 1500, "xx:J:" + "{\"a\":" * 1200 + "1" + "}" * 1200, "xx:J:[" + "9" * 5000 + "]",
+         "xx:J:{\"k\":-" + "1" * 4400 + "}", "xx:i:" + "9" * 5000, "xx:i:-" + "7" * 4400, "xx:f:" + "1" * 5000 + ".5", "xx:f:1e" + "9" * 400,
+         "xx:B:i," + ",".join(["1"] * 3000), "xx:B:I," + "9" * 4500, "xx:H:" + "AF" * 4000, "xx:Z:" + "z" * 20000, "xx:B:f," + "1" * 4500,
+         "xx:J:" + "[1," * 1100 + "2" + "]" * 1100]
+
+
 def mutate_text(r, text, k):
     lines = text.split("\n")
     for _ in range(k):
-        m = r.randrange(13)
+        m = r.randrange(14)
         if not lines:
             lines = [""]
         i = r.randrange(len(lines))
@@ -294,6 +300,8 @@ def mutate_text(r, text, k):
                     el = el[:1]
                 f[j] = sep.join(el)
             ln = "\t".join(f)
+        elif m == 13:  # a further tag of pathological size (deep nesting, thousands of digits or elements)
+            ln = ln + "\t" + gen.choice(r, PATHO)
         elif m == 11:  # an odd identifier in the name field
             f = ln.split("\t")
             if len(f) > 1:
